@@ -255,7 +255,7 @@ def work(shard, tier):
         mod = mods[name]
         rng = C.rng_for('C12', name)
         getters = {f: g for f, g in calls.public_functions(mod).items() if GETTER_RE.search(f)}
-        n = 10 if tier == 'quick' else 120
+        n = 10 if tier == 'quick' else 500
         base = C.corpus(name, limit=n, rng=rng)
         pairs = []
         for x in base:
@@ -263,8 +263,8 @@ def work(shard, tier):
             if o[0] == 'ok' and isinstance(o[1], str):
                 pairs.append((o[1], x))
         extra = C.synth_valid(name, n, rng, base=base) + C.synth_alphabet(name, rng, k=2) + C.synth_digits_only(name, rng, k=3)
-        reg = registry_witnesses(name, mod, rng, 8 if tier == 'quick' else 60)
-        dat = date_sources(name, mod, rng, 6 if tier == 'quick' else 40)
+        reg = registry_witnesses(name, mod, rng, 8 if tier == 'quick' else 300)
+        dat = date_sources(name, mod, rng, 6 if tier == 'quick' else 80)
         counters['registry_derived_numbers'] += len(reg)
         counters['date_forced_numbers'] += len(dat)
         for v in extra + reg + dat:
